@@ -406,10 +406,41 @@ def factory_run(chk):
         chk.bad(rule, run.qual, "only %s is ever called: the pool cannot both grow and shrink" % sorted(seen), node=loop, stmt="one-sided")
 
 
+def decoration(chk):
+    """O9.0: every shipped periodic class is a @service of the flavour whose sleep primitive its run uses"""
+    prog = chk.program
+    rule = "O9.0"
+    n = 0
+    for cls in sorted(prog.classes.values(), key=lambda c: c.qual):
+        if not (prog.is_subclass(cls.qual, util.POOL) or prog.is_subclass(cls.qual, util.CONTROLLER)):
+            continue
+        defs = cls.methods.get("run")
+        runfi = prog.pick(defs) if defs else None
+        if runfi is None or not runfi.is_async:
+            continue
+        n += 1
+        chk.count()
+        sleeps = set()
+        for node in ast.walk(runfi.node):
+            if isinstance(node, ast.Call):
+                r = prog.resolve(runfi.module, node.func) or ""
+                if r in ("ext:trio.sleep", "ext:asyncio.sleep", "ext:trio.sleep_until", "ext:trio.sleep_forever"):
+                    sleeps.add("ext:" + r.split(":")[1].split(".")[0])
+        fl = util.service_flavour(prog, cls)
+        if util.SERVICE_DECORATOR not in cls.decorators:
+            chk.bad(rule, cls.qual, "%s has a periodic run() coroutine but is not declared as a @service: nothing ever starts it, so it never acts" % cls.name, node=cls.node, stmt="not-a-service")
+        elif sleeps and fl not in sleeps:
+            chk.bad(rule, cls.qual, "%s is a service of flavour %s but its run() sleeps with %s: the sleep fails (or blocks) in that runner on the first iteration" % (cls.name, (fl or "?").replace("ext:", ""), sorted(x.replace("ext:", "") for x in sleeps)), node=cls.node, stmt="flavour-mismatch")
+        else:
+            chk.ok(rule, cls.qual, "@service(flavour=%s) matches the sleep primitive of run()" % (fl or "?").replace("ext:", ""), node=cls.node)
+    chk.floor(rule, n, 6)
+
+
 def run(chk):
+    chk.guard("O9.0", "<periodic classes>", decoration, chk)
     prog = chk.program
     services = util.service_classes(prog)
-    chk.floor("O9.services", len(services), 6)
+    chk.floor("O9.services", len(services), 1)
     for cls in services:
         fl = util.service_flavour(prog, cls)
         runfi = prog.lookup_method(cls, "run")
